@@ -258,6 +258,24 @@ func (e *enc) loopWrites(fr *frame, body map[*ssa.BasicBlock]bool) (keys map[str
 	return
 }
 
+// loopStores: components directly assigned (Store) in the loop, as opposed to updated through a map
+func (e *enc) loopStores(fr *frame, body map[*ssa.BasicBlock]bool) map[string]bool {
+	keys := map[string]bool{}
+	for bb := range body {
+		for _, in := range bb.Instrs {
+			switch x := in.(type) {
+			case *ssa.Store:
+				var dummy bool
+				e.addWriteBase(fr, x.Addr, keys, &dummy)
+			case *ssa.Call:
+				var dummy bool
+				e.callWrites(fr, x.Common(), keys, &dummy)
+			}
+		}
+	}
+	return keys
+}
+
 // addWriteBase: which component does a store through v hit?
 func (e *enc) addWriteBase(fr *frame, v ssa.Value, keys map[string]bool, allHeap *bool) {
 	switch x := v.(type) {
@@ -308,6 +326,13 @@ func (e *enc) addWriteBase(fr *frame, v ssa.Value, keys map[string]bool, allHeap
 				e.addWriteBase(fr, ed, keys, allHeap)
 			}
 		}
+		return
+	case *ssa.MakeMap:
+		keys[fmt.Sprintf("M:%s:%d:%s", clean(fr.fn.Name()), fr.depth, x.Name())] = true
+		return
+	}
+	if l, ok := fr.prov[v]; ok {
+		keys[l.base] = true
 		return
 	}
 	if l, ok := fr.loc[v]; ok {
@@ -421,9 +446,15 @@ func (e *enc) loopHeader(fr *frame, h *ssa.BasicBlock) {
 	}
 	// 2. havoc
 	keys, allHeap := e.loopWrites(fr, body)
+	stored := e.loopStores(fr, body)
 	for _, k := range sortedKeys(e.mem) {
 		if keys[k] || (allHeap && strings.HasPrefix(k, "H:")) {
+			old := e.mem[k]
 			e.havocKey(k)
+			// a map location that is only updated (never reassigned) in the loop keeps its nil-ness
+			if ms := e.memSort[k]; strings.HasPrefix(ms, "Map_") && !stored[k] {
+				e.assume(fmt.Sprintf("(= (nil_%s %s) (nil_%s %s))", ms, e.mem[k], ms, old))
+			}
 		}
 	}
 	for _, in := range h.Instrs {
@@ -759,6 +790,9 @@ func (e *enc) instr(b *ssa.BasicBlock, in ssa.Instruction) {
 		e.lookup(x)
 	case *ssa.MapUpdate:
 		m := e.value(x.Map)
+		if p, ok := fr.prov[x.Map]; ok {
+			m = e.read(p)
+		}
 		ms := e.so.of(x.Map.Type())
 		e.safety("mapnil", fmt.Sprintf("(not (nil_%s %s))", ms, m), x.Pos(), x.String())
 		nv := fmt.Sprintf("(mk_%s (store (dom_%s %s) %s true) (store (val_%s %s) %s %s) false)", ms, ms, m, e.value(x.Key), ms, m, e.value(x.Key), e.value(x.Value))
@@ -766,12 +800,6 @@ func (e *enc) instr(b *ssa.BasicBlock, in ssa.Instruction) {
 			e.write(prov, nv)
 			// keep the SSA value usable for later updates through the same register (maps are references)
 			fr.val[x.Map] = e.read(prov)
-		} else if mm, ok := x.Map.(*ssa.MakeMap); ok {
-			// local map never stored: track as private cell
-			key := fmt.Sprintf("M:%s:%d:%s", clean(fr.fn.Name()), fr.depth, mm.Name())
-			l := &Loc{base: key, sort: ms, ty: x.Map.Type()}
-			e.write(l, nv)
-			fr.val[x.Map] = e.mem[key]
 		} else {
 			e.note("MapUpdate without provenance %s in %s", x, fnFull(fr.fn))
 			e.outOfSubset = append(e.outOfSubset, "map update through a map value of unknown origin: "+x.String())
